@@ -3,6 +3,11 @@
   MULTILINE-TOKEN  E3 decides which lexer regexes can match a newline. For a token kind that can, every Position built in
                    lex_between that spans the whole match (end_offset = offset + match.end()) must take end_line_number and
                    end_column from LinePositions::from_offset(<end offset>), not from the start line / start column + length.
+  POSITION-TRIPLE  every Position literal in the lexer describes two points consistently: (line_number, column) is
+                   from_offset(start_offset); the end is either from_offset(end_offset) in both end fields, or the start line
+                   with end_column = column + L and end_offset = start_offset + L for one and the same L.
+  UNIT-MIX         (MIR dataflow over the whole crate, vlib/units.py) no str slice bound or offset derives from a count of
+                   characters, and no index into a char sequence derives from a byte offset.
   CHAR-BOUNDARY    every amount added to the byte `offset` in lex_between, and every `&s[a..b]` bound, has char-boundary
                    provenance: a str len(), a regex Match::end(), a find() result (+ the ASCII needle length), len_utf8(), or
                    the byte length of an ASCII literal that was matched with starts_with. A bare integer literal after a test
@@ -79,6 +84,112 @@ def run(ctx, res):
                     res.ok("MULTILINE-TOKEN", key + ": end line/column from from_offset(end offset)")
                     res.sample({"rule": "MULTILINE-TOKEN", "regex": rx, "line": S.line(st)})
     res.floor("MULTILINE-TOKEN", "whole-match token positions in lex_between", n_pos, 4)
+
+    # ---- UNIT-MIX over the whole crate (byte offsets vs character counts)
+    from .. import units as U
+    U.check(ctx.P, res, "UNIT-MIX", ("",), 70)
+
+    # ---- POSITION-TRIPLE: offsets and line/column of every Position literal in the lexer describe the same two points
+    import re as _re
+    n_trip = 0
+    fns = []
+    S._fns_in(S.file_items(sh, LEX), fns)
+    for impl, fn, test in fns:
+        if test:
+            continue
+        lets = []       # (line, names, kind, expr)
+        for n in S.walk(fn["body"]):
+            if n["k"] == "Let" and n["init"] is not None:
+                if n["init"]["k"] == "MethodCall" and n["init"]["method"] == "from_offset" and n["init"]["args"]:
+                    lets.append((S.line(n), list(S.pat_bindings(n["pat"])), "fo", n["init"]["args"][0]))
+                elif n["pat"]["k"] == "PIdent" and not n["pat"].get("mut"):
+                    lets.append((S.line(n), [n["pat"]["name"]], "let", n["init"]))
+
+        def txt(e):
+            return _re.sub(r"\s+", "", ctx.src_text(LEX, e["sp"]))
+
+        def binding(name, line, kind):
+            best = None
+            for (ln, names, k, e) in lets:
+                if name in names and ln <= line and (best is None or ln > best[0]):
+                    best = (ln, names, k, e)
+            return best if best and best[2] == kind else None
+
+        def norm_(e, line, depth=0):
+            """source text with single `let x = <expr>` bindings substituted."""
+            if e["k"] == "Path" and "::" not in e["path"] and depth < 4:
+                b = binding(e["path"], line, "let")
+                if b is not None and b[3]["k"] in ("Binary", "Path", "MethodCall", "Paren"):
+                    return "(" + norm_(b[3], b[0], depth + 1) + ")"
+                return e["path"]
+            if e["k"] == "Binary":
+                return "%s%s%s" % (norm_(e["l"], line, depth), e["op"], norm_(e["r"], line, depth))
+            if e["k"] == "Paren":
+                return norm_(e["e"], line, depth)
+            if e["k"] == "MethodCall" and e["method"] == "as_usize" and not e["args"]:
+                return norm_(e["recv"], line, depth)
+            return txt(e)
+
+        def strip_par(t):
+            while t.startswith("(") and t.endswith(")"):
+                t = t[1:-1]
+            return t
+
+        def from_offset_arg(e, line, idx):
+            """e is (a use of) the idx-th binding of `let (l, c) = lp.from_offset(X)` -> normalised X"""
+            ids = [n["path"] for n in S.walk(e) if n["k"] == "Path" and "::" not in n["path"]]
+            for name in ids:
+                b = binding(name, line, "fo")
+                if b is not None and b[1].index(name) == idx and strip_par(norm_(e, line)) == name:
+                    return strip_par(norm_(b[3], b[0]))
+            return None
+
+        def plus(e, line):
+            """`A + L` -> (norm A, norm L)"""
+            if e["k"] == "Binary" and e["op"] == "+":
+                return strip_par(norm_(e["l"], line)), strip_par(norm_(e["r"], line))
+            if e["k"] == "Path":
+                b = binding(e["path"], line, "let")
+                if b is not None:
+                    return plus(b[3], b[0])
+            return None
+        for st in S.walk(fn["body"]):
+            if st["k"] != "Struct" or not st["path"].endswith("Position"):
+                continue
+            fm = field_map(st)
+            if not all(k in fm for k in ("start_offset", "end_offset", "line_number", "end_line_number", "column", "end_column")):
+                continue
+            n_trip += 1
+            ln = S.line(st)
+            ordinal = n_trip
+            key = "parser::lex::%s # Position literal %d" % (fn["name"], ordinal)
+            so = strip_par(norm_(fm["start_offset"], ln))
+            problems = []
+            a_l = from_offset_arg(fm["line_number"], ln, 0)
+            a_c = from_offset_arg(fm["column"], ln, 1)
+            if a_l is None or a_c is None or a_l != so or a_c != so:
+                problems.append("line_number/column are not LinePositions::from_offset(start_offset)")
+            eo = strip_par(norm_(fm["end_offset"], ln))
+            e_l = from_offset_arg(fm["end_line_number"], ln, 0)
+            e_c = from_offset_arg(fm["end_column"], ln, 1)
+            if e_l is not None and e_c is not None:
+                if e_l != eo or e_c != eo:
+                    problems.append("end_line_number/end_column come from from_offset(%s) but end_offset is %s" % (e_l, eo))
+                form = "from_offset(end_offset)"
+            else:
+                # same line: end_line == line, end_column = column + L, end_offset = start_offset + L
+                po = plus(fm["end_offset"], ln)
+                pc = plus(fm["end_column"], ln)
+                same_line = strip_par(norm_(fm["end_line_number"], ln)) == strip_par(norm_(fm["line_number"], ln))
+                if not (po and pc and same_line and po[0] == so and pc[0] == strip_par(norm_(fm["column"], ln)) and po[1] == pc[1]):
+                    problems.append("end_offset, end_line_number and end_column are neither all taken from from_offset(end_offset) nor start + one common length on the start line "
+                                    "(end_offset=%s, end_line_number=%s, end_column=%s)" % (eo, txt(fm["end_line_number"]), txt(fm["end_column"])))
+                form = "start + %s on the start line" % (po[1] if po else "?")
+            if problems:
+                res.bad("POSITION-TRIPLE", key + " # inconsistent", "; ".join(problems), "%s:%d" % (LEX, ln))
+            else:
+                res.ok("POSITION-TRIPLE", key + ": start from from_offset(%s); end %s" % (so, form))
+    res.floor("POSITION-TRIPLE", "Position literals in the lexer", n_trip, 11)
 
     # ---- CHAR-BOUNDARY
     def boundary_expr(e, lits_ok):
